@@ -94,7 +94,9 @@ def project(weights,
     range_dominances = [(j, i) for i, j in range_dominances]
     scalings = [-1.0 if m == -1 else 1.0 for m in monotonicities]
     for dim, (lower, upper) in enumerate(zip(input_min, input_max)):
-      if lower is not None and upper is not None:
+      # Dimensions with an empty input range take no part in range dominance
+      # and must not be scaled by zero (weights are divided by scalings below).
+      if lower is not None and upper is not None and upper > lower:
         scalings[dim] *= upper - lower
     scalings = tf.constant(
         scalings, dtype=weights.dtype, shape=(weights.shape[0], 1))
